@@ -343,6 +343,8 @@ def native_dir_replay(o=None):
 
 
 def run(R):
+    from engine.canary import run_canaries
+    run_canaries(R, ('symx',))
     R.assume('A2', 'A4', 'A6')
     R.trust('h5py / os / glob as file-system contracts (A4); key and file-name parsing as decided in C18')
     fixij_obligations(R)
